@@ -14,6 +14,51 @@ the stream in fresh interpreters in different orders, rare classes first (op `or
 (op `array`) and the rare strata of the quantifier; the Lean object state machines
 (Model/Serial/Hist.lean) are compared with real Location / collection objects step by step (op `hist`).
 The list of producers and their consumers is at the head of the history section below.
+
+Round 4 (kinds e-j of seeded/C07-9..12; the one miss, C07-12, was a ONE-SHOT ITERABLE handed to a file writer):
+  (f) container shapes: every sequence argument of every class (values / datetimes of the ten collection
+      classes, colours / domain of ColorRange, colours of LegendParameters, domain / colours / names of
+      LegendParametersCategorized, values of Legend, design days of DDY, annual values of Wea) and the series
+      handed to collections_to_csv / _to_json / _to_pkl as list, tuple, generator, iterator, map, filter, deque
+      (op `shape`, key `shape` of the file ops): a shape the code refuses is no instance; an accepted one reads
+      back, writes the same dictionary every time it is asked, and IS the instance the list describes;
+      correspondence `file_series` / `rt_file_*`: the files written from every shape hold the model's encFile.
+  (f) aliasing (op `alias`): a copy (duplicate / copy.copy / deepcopy / pickle), a read-back, a twin
+      (to_mutable / to_immutable) and a second object built from the same (default) arguments are separate
+      values - editing one through setters, item assignment, in-place conversion or the metadata dictionary it
+      hands out leaves the other's dictionary unchanged (both directions); editing a dictionary after it was
+      written / after it was read changes neither object.  Recorded conventions of the pinned code that are NOT
+      asserted: a mutable collection writes its own value list into its dictionary, legend parameters share
+      their ordinal / user-data dictionaries with their dictionary form and their copies, a header keeps the
+      metadata dictionary it is handed.
+  (e) sibling classes: op `twin` (mutable / immutable twins convert into each other, equal the directly built
+      twin, keep the validated flag, write the same dictionary up to the class name); copy.deepcopy and pickle of
+      every class; every field of LegendParameters also on LegendParametersCategorized; theorems
+      C07_twins_same_json, C07_read_as_mutable / _immutable, C07_twin_conversions.
+  (i) input shapes: numbers given as text ('plain', blank-padded / zero-padded, exponent notation) to every
+      constructor that converts (Location, Color, AnalysisPeriod month/day/hour, categorized domain); hand-written
+      texts of the documented formats (op `text_shape`: zero-padded, capitals, blanks incl. after the leap star,
+      no blanks, mixed widths; one- and two-digit DateTime / Date / Time texts); unsorted, reversed and duplicated
+      datetimes; exotic but legal characters in every text field incl. CSV / JSON / PKL files.
+  (h) numeric edges: value texts with an exponent and no fraction part (1e-05, 3e+16), 1e-12 .. 1e+100, halves,
+      -0.0, subnormal / largest float, +-inf in collection values, in every file form and dictionary; longitudes
+      whose derived time zone is a rounding half-way case.
+  (j) branches of the anchored functions and the stratum that reaches each (counters `branch:` / `stratum:`):
+      datautil writers: folder missing -> makedirs (newdir), file name with / without extension, capitals (fname);
+      collections_to_csv: metadata aligned (one row per item) / not aligned (3 header rows) (pairs in one file with
+      equal / different metadata); collections_from_csv: five class branches x leap flag; _dict_to_collection: five
+      type branches (json_file / pkl of every class); Header.to_dict / __copy__ `if self.analysis_period`: the
+      else branch is unreachable (the constructor refuses a missing period, every period has len >= 1);
+      Header.from_csv_strings `len > 2` (metadata present / absent); Header.to_csv_strings per_row both;
+      DateTime / Date to_array / to_dict leap branch (leap strata); from_dict optional keys present / absent
+      (writer omits leap_year False; key-dropped variants in the correspondence); GenericType.to_dict six optional
+      fields (gen_datatype); DataTypeBase.from_dict generic / standard / name-matches-class; Color.from_dict alpha
+      absent (correspondence key drop) / alpha 0; LegendParameters(-Categorized).__copy__ user_data None / dict;
+      Legend3D / 2D to_dict default / non-default fields; Legend.from_dict parameters None / plain / categorized;
+      Wea.from_dict continuous / datetimes, timestep, leap, part-day hours; AnalysisPeriod.from_string leap star,
+      except branch (malformed text is refused: not a form the writer produces; correspondence malformed stream);
+      from_*_string except branches likewise; to_immutable `_enumeration is None` (first conversion in a fresh
+      interpreter: op `twin` / `alias` inside the `order` runs).
 """
 import contextlib
 import copy
@@ -33,7 +78,7 @@ PROP = 'C07'
 PROOF_MODULES = ['Ladybug.Props.C07']
 GREP_MODULES = ['Ladybug.Model.Codec', 'Ladybug.Model.Serial.Basic', 'Ladybug.Model.Serial.Coll',
                 'Ladybug.Model.Serial.Legend', 'Ladybug.Model.Serial.DesignDay', 'Ladybug.Model.Serial.Wea',
-                'Ladybug.Model.Serial.Csv', 'Ladybug.Model.Serial.Hist', 'Ladybug.Proofs.C07Hist',
+                'Ladybug.Model.Serial.Csv', 'Ladybug.Model.Serial.Hist', 'Ladybug.Model.Serial.Files', 'Ladybug.Proofs.C07Hist',
                 'Ladybug.Proofs.C07Basic', 'Ladybug.Proofs.C07Loc',
                 'Ladybug.Proofs.C07Legend', 'Ladybug.Proofs.C07DesignDay', 'Ladybug.Proofs.C07Wea',
                 'Ladybug.Proofs.C07Csv', 'Ladybug.Model.AP', 'Ladybug.Gen.ApTables',
@@ -46,7 +91,11 @@ RULE = ('instances are described by plain-data specs (class + constructor argume
         'categorized, 2D/3D), legends, design-day conditions, design days, DDY, Wea (annual / partial), '
         'EPW (asset files), psychrometric charts.  correspondence: model enc(dec v) vs real '
         'from_dict(v).to_dict() on real to_dict output, its key-shuffled / key-dropped / malformed variants; '
-        'oracle: dict+JSON, to_dict fixed point, key order, duplicate/copy, text forms, array forms, CSV/JSON/PKL files; '
+        'oracle: dict+JSON, to_dict fixed point, key order, duplicate/copy/deepcopy, text forms, array forms, CSV/JSON/PKL files; '
+        'round 4: every sequence argument and every series of collections as list / tuple / generator / iterator / map / filter / deque, '
+        'numbers as text, hand-written text shapes, aliasing between an object and its copies / read-backs / twins / second objects and '
+        'the dictionaries written and read, mutable-immutable twins, numeric edges (exponent texts, 1e-12..1e100, halves, inf), exotic '
+        'characters, unsorted / duplicated datetimes, new folders and file names with extensions; '
         'histories on one object (setters with accepted / refused values incl. zeros and exact bounds, item '
         'assignment, unit conversion in place, metadata, nested parts; reads in random order, repeated) checked '
         'after every step against the serial-form observables and a fresh object built from the public state; '
@@ -84,7 +133,7 @@ TRUSTED_BASE = [
 ]
 ASSUMPTIONS = ['object equality is the class\'s own __eq__ where defined; ColorRange, EPW and '
                'PsychrometricChart define none and are compared through their dictionaries']
-LEVEL_TEXT = ('Machine-checked Lean 4 theorems (42) over a codec model of the serial forms: json.loads(json.dumps) '
+LEVEL_TEXT = ('Machine-checked Lean 4 theorems (49) over a codec model of the serial forms: json.loads(json.dumps) '
               'modelled as jsonRT (tuples to lists, integer keys to text); the round-trip law '
               'dec(jsonRT(enc a)) = a is proved for every well-formed DateTime, Date, Time, AnalysisPeriod '
               '(incl. duplicate and token-level text), Location, Color, standard and generic DataType, Header, '
@@ -97,7 +146,10 @@ LEVEL_TEXT = ('Machine-checked Lean 4 theorems (42) over a codec model of the se
               'the data collections are object state machines over their public state; for every history of accepted '
               'and refused assignments and reads the object still reads back / copies equal to itself and answers as a '
               'fresh object built from its public state, a refused operation changes nothing, reads are pure '
-              '(proved by induction over the history).  The model is compared with the real '
+              '(proved by induction over the history).  Round 4: the mutable and immutable twins of a collection write the '
+              'same JSON and each dictionary reads as either twin; a JSON / pickle file of a series of collections of one class '
+              'reads back, in order and in number, to the mutable twins (the model of the writers takes the list of the elements; '
+              'the real writers are fed every container shape).  The model is compared with the real '
               'from_dict/to_dict and text functions on generated instances on every run; file forms, copies, '
               'EPW and psychrometric charts are checked by the oracle on the real code only.')
 LEVEL_NOTE = ('Trusted: Lean kernel; axioms propext/Classical.choice/Quot.sound only; JSON library behaviour as '
@@ -260,11 +312,59 @@ def _num(x):
     return x
 
 
+SHAPES = ('list', 'tuple', 'gen', 'iter', 'map', 'filter', 'deque')
+
+
+def _shp(seq, shape):
+    """The same data in another container shape (round 4, kind f/i).  `gen`, `iter`, `map`, `filter`
+    can be iterated only once."""
+    if seq is None or shape is None:
+        return seq
+    seq = list(seq)
+    if shape == 'list':
+        return seq
+    if shape == 'tuple':
+        return tuple(seq)
+    if shape == 'gen':
+        return (v for v in seq)
+    if shape == 'iter':
+        return iter(seq)
+    if shape == 'map':
+        return map(lambda v: v, seq)
+    if shape == 'filter':
+        return filter(lambda v: True, seq)
+    if shape == 'deque':
+        import collections
+        return collections.deque(seq)
+    raise ValueError('unknown shape %r' % (shape,))
+
+
+# constructor arguments that go through float() / int() and therefore accept numbers given as text
+_STRNUM_IDX = {'Location': (3, 4, 5, 6), 'Color': (0, 1, 2, 3), 'AnalysisPeriod': (0, 1, 2, 3, 4, 5)}
+
+
+def _numtext(v, mode):
+    """A number as text: 'plain' str(v), 'pad' with blanks / leading zero, 'exp' exponent notation."""
+    if v is None or isinstance(v, (bool, str)):
+        return v
+    if mode == 'plain':
+        return repr(v)
+    if mode == 'pad':
+        return (' %02d ' % v) if isinstance(v, int) and v >= 0 else ' %r ' % (v,)
+    if mode == 'exp':
+        return ('%.17e' % v) if isinstance(v, float) and v == v and abs(v) != float('inf') else repr(v)
+    raise ValueError('unknown number text mode %r' % (mode,))
+
+
 def build(spec):
     """Construct the real object described by `spec` (a JSON-able dict with key 'cls')."""
     L = _imp()
     c = spec['cls']
     a = spec.get('args')
+    shape = spec.get('shape')
+    S = (lambda seq: _shp(seq, shape)) if shape else (lambda seq: seq)
+    if spec.get('strnum') and a is not None and c in _STRNUM_IDX:
+        a = [_numtext(v, spec['strnum']) if i in _STRNUM_IDX[c] else v for i, v in enumerate(a)]
     if c == 'DateTime':
         return L['dt'].DateTime(a[0], a[1], a[2], a[3], bool(a[4]))
     if c == 'Date':
@@ -293,7 +393,7 @@ def build(spec):
         klass = getattr(mod, names[1 if spec.get('immutable') else 0])
         h = build(spec['header'])
         if spec['kind'] == 'HourlyContinuous':
-            obj = klass(h, list(spec['values']))
+            obj = klass(h, S([_num(v) for v in spec['values']]))
         else:
             if spec['kind'] == 'HourlyDiscontinuous':
                 dts = [L['dt'].DateTime(*d[:4], leap_year=bool(d[4])) for d in spec['datetimes']]
@@ -301,14 +401,17 @@ def build(spec):
                 dts = [tuple(d) for d in spec['datetimes']]
             else:
                 dts = list(spec['datetimes'])
-            obj = klass(h, list(spec['values']), dts)
+            obj = klass(h, S([_num(v) for v in spec['values']]), S(dts))
             obj._validated_a_period = bool(spec.get('validated', False))
         return obj
     if c == 'Color':
         return L['col'].Color(*a)
     if c == 'ColorRange':
         cols = None if spec['colors'] is None else [L['col'].Color(*x) for x in spec['colors']]
-        return L['col'].ColorRange(cols, spec['domain'], spec['continuous'])
+        dom = spec['domain']
+        if spec.get('strnum') and dom is not None:
+            dom = [_numtext(v, spec['strnum']) for v in dom]
+        return L['col'].ColorRange(S(cols), S(dom), spec['continuous'])
     if c == 'Legend3DParameters':
         from ladybug_geometry.geometry3d.pointvector import Point3D, Vector3D
         from ladybug_geometry.geometry3d.plane import Plane
@@ -319,7 +422,7 @@ def build(spec):
     if c == 'LegendParameters':
         cols = None if spec.get('colors') is None else [L['col'].Color(*x) for x in spec['colors']]
         lp = L['lg'].LegendParameters(spec.get('min'), spec.get('max'), spec.get('segment_count'),
-                                      cols, spec.get('title'))
+                                      S(cols), spec.get('title'))
         for k in ('continuous_legend', 'decimal_count', 'include_larger_smaller', 'vertical', 'font'):
             if k in spec:
                 setattr(lp, k, spec[k])
@@ -334,7 +437,10 @@ def build(spec):
         return lp
     if c == 'LegendParametersCategorized':
         cols = [L['col'].Color(*x) for x in spec['colors']]
-        lp = L['lg'].LegendParametersCategorized(spec['domain'], cols, spec.get('names'), spec.get('title'))
+        dom = spec['domain']
+        if spec.get('strnum'):
+            dom = [_numtext(v, spec['strnum']) for v in dom]
+        lp = L['lg'].LegendParametersCategorized(S(dom), S(cols), S(spec.get('names')), spec.get('title'))
         for k in ('continuous_colors', 'continuous_legend', 'decimal_count', 'include_larger_smaller',
                   'vertical', 'font'):
             if k in spec:
@@ -342,7 +448,7 @@ def build(spec):
         return lp
     if c == 'Legend':
         lp = None if spec.get('lp') is None else build(spec['lp'])
-        return L['lg'].Legend(list(spec['values']), lp)
+        return L['lg'].Legend(S(list(spec['values'])), lp)
     if c == 'DryBulbCondition':
         return L['dd'].DryBulbCondition(*a)
     if c == 'HumidityCondition':
@@ -362,14 +468,14 @@ def build(spec):
                                  build(spec['db']), build(spec['hum']), build(spec['wind']),
                                  build(spec['sky']))
     if c == 'DDY':
-        return L['ddy'].DDY(build(spec['location']), [build(d) for d in spec['days']])
+        return L['ddy'].DDY(build(spec['location']), S([build(d) for d in spec['days']]))
     if c == 'Wea':
         loc = build(spec['location'])
         if spec.get('annual', True):
             n = (8784 if spec.get('leap') else 8760) * spec.get('timestep', 1)
             dn = [float((i * 7) % 900) for i in range(n)]
             dh = [float((i * 3) % 300) for i in range(n)]
-            return L['wea'].Wea.from_annual_values(loc, dn, dh, spec.get('timestep', 1),
+            return L['wea'].Wea.from_annual_values(loc, S(dn), S(dh), spec.get('timestep', 1),
                                                    bool(spec.get('leap')))
         ts = spec['ap']['args'][6]
         lp = bool(spec['ap']['args'][7])
@@ -404,6 +510,7 @@ def reader_class(spec, obj):
 
 
 NO_EQ = ('ColorRange', 'EPW', 'PsychrometricChart')
+_NO_DEEPCOPY = ('EPW', 'PsychrometricChart', 'Wea')      # heavy objects: deep copies cost seconds
 
 
 def jdump(d):
@@ -575,7 +682,11 @@ def _check_plain(op, inp):
         if r:
             return r
         if hasattr(type(x), '__copy__'):
-            return attempt('copy', lambda: copy.copy(x))
+            r = attempt('copy', lambda: copy.copy(x))
+            if r:
+                return r
+        if spec['cls'] not in _NO_DEEPCOPY:
+            return attempt('deepcopy', lambda: copy.deepcopy(x))
         return None
     if op == 'pickle':
         return attempt('pickle', lambda: pickle.loads(pickle.dumps(x)))
@@ -632,8 +743,34 @@ def _check_plain(op, inp):
                 extra = {'meta': _meta_kind(spec['header'].get('meta')),
                          'validated': bool(spec.get('validated', spec['kind'] == 'HourlyContinuous')),
                          'leap': bool(spec['header']['ap']['args'][7])}
+            shape = inp.get('shape')
+            # rare branches of the writers: a folder that does not exist yet, a file name that already
+            # carries the extension (in capitals too)
+            folder = os.path.join(tmp, 'new', 'sub dir') if inp.get('newdir') else tmp
+            fname = inp.get('fname') or 'data'
+            if inp.get('newdir') or inp.get('fname'):
+                extra['file_branch'] = '%s/%s' % ('newdir' if inp.get('newdir') else 'dir', 'ext' if '.' in fname else 'noext')
+            if shape:
+                extra['shape'] = shape
+                try:
+                    path = getattr(du, 'collections_to_' + kind)(_shp(xs, shape), folder, fname)
+                except Exception:
+                    if shape in ('list', 'tuple'):
+                        raise_again = True
+                    else:
+                        return None        # a series that cannot be indexed / measured is refused: loud, not wrong
+                else:
+                    raise_again = False
+                if raise_again:
+                    return fail(op, _describe(x), 'the writer refuses a %s of collections' % shape,
+                                outcome='raises', **extra)
             try:
-                path = getattr(du, 'collections_to_' + kind)(xs, tmp, 'data')
+                if not shape:
+                    path = getattr(du, 'collections_to_' + kind)(xs, folder, fname)
+                if not os.path.isfile(path) or os.path.dirname(os.path.abspath(path)) != os.path.abspath(folder) \
+                        or not os.path.basename(path).lower().startswith(fname.lower().split('.')[0]):
+                    return fail(op, 'a file %r in the folder asked for' % fname, 'path returned: %r' % path,
+                                outcome='path', **extra)
                 back = getattr(du, 'collections_from_' + kind)(path)
             except Exception as e:
                 return fail(op, _describe(x), 'raises %s: %s' % (type(e).__name__, str(e)[:200]),
@@ -666,8 +803,8 @@ def _meta_kind(md):
     for k, v in (md.items() if isinstance(md, dict) else md):
         if not isinstance(v, str) or not isinstance(k, str):
             return 'nonstring'
-        if any(s in v or s in k for s in (',', ' | ', ': ', '\n')):
-            return 'separator'
+        if any(s in v or s in k for s in (',', ' | ', ': ', '\n')) or v != v.strip() or k != k.strip():
+            return 'separator'          # (blanks at the edges are stripped by the reader: same root)
     return 'strings'
 
 
@@ -889,6 +1026,15 @@ def real_apply(x, op):
             getattr(x, op['name'])()
     elif k == 'read':
         _read(x, op['what'])
+    elif k == 'poke':
+        # edit in place a container the object hands out
+        cont = _target(x, op['path'].split('.'))
+        if isinstance(cont, dict):
+            cont[op['key']] = op['v']
+        elif isinstance(cont, list):
+            cont.append(op['v'])
+        else:
+            raise TypeError('not editable in place')
     else:
         raise ValueError('unknown history op %r' % (k,))
 
@@ -1179,6 +1325,327 @@ def _check_seq(op, inp):
     return None
 
 
+# ---------------------------------------------------------------------------------------------
+# round 4: the same data in every container shape / number text (op `shape`), aliasing between an
+# object and its copies, its dictionaries and a second object of its class (op `alias`), sibling
+# classes (op `twin`), hand-written text shapes (op `text_shape`)
+
+SHAPE_REFUSED = []
+_R4_OPS = ('shape', 'alias', 'twin', 'text_shape')
+
+
+def _strip_shape(spec):
+    return {k: v for k, v in spec.items() if k not in ('shape', 'strnum')}
+
+
+def _snap(o):
+    return jdump(json.loads(json.dumps(o.to_dict())))
+
+
+def _jeq(a, b):
+    """Two dictionary texts describe the same Python values (0 == 0.0)."""
+    return a == b or json.loads(a) == json.loads(b)
+
+
+def _unsorted_domain(x):
+    try:
+        return list(x.domain) != sorted(x.domain)
+    except Exception:
+        return False
+
+
+def _check_shape(op, inp):
+    """The instance built from a tuple / generator / iterator / map / deque of the same data, or from numbers
+    given as text, is a constructible instance like any other: it reads back equal, writes the same
+    dictionary every time it is asked, and is the instance that the list / number form describes.  (A shape
+    the constructor refuses describes no instance.)"""
+    spec = inp['spec']
+    plain_spec = _strip_shape(spec)
+    try:
+        plain = build(plain_spec)
+    except Exception:
+        UNCONSTRUCTIBLE.append(spec['cls'])
+        return None
+    try:
+        x = build(spec)
+    except Exception:
+        SHAPE_REFUSED.append((spec['cls'], spec.get('shape'), spec.get('strnum')))
+        return None
+    rc = reader_class(plain_spec, x)
+
+    def fail(outcome, required, observed):
+        lost = []
+        try:
+            dp, dx = plain.to_dict(), x.to_dict()
+            lost = sorted(k_ for k_ in dp if isinstance(dp[k_], (list, tuple)) and len(dp[k_]) > 0 and
+                          isinstance(dx.get(k_), (list, tuple)) and len(dx[k_]) == 0)
+        except Exception:
+            pass
+        return {'required': required, 'observed': observed,
+                'sig': _sig(plain_spec, 'shape', root=root_of('dict_json', {'spec': plain_spec}), outcome=outcome,
+                            shape=spec.get('shape') or 'list', strnum=spec.get('strnum') or 'no',
+                            one_shot=spec.get('shape') in ('gen', 'iter', 'map', 'filter'), lost='+'.join(lost) or 'none',
+                            text_numbers=bool(spec.get('strnum')), unsorted_domain=_unsorted_domain(x))}
+    try:
+        j1 = _snap(x)
+        j2 = _snap(x)
+    except Exception as e:
+        return fail('to_dict_raises', _describe(plain), 'raises %s: %s' % (type(e).__name__, str(e)[:160]))
+    if not _jeq(j1, j2):
+        return fail('second_to_dict_differs', j1[:300], j2[:300])
+    bad, _d = _obs(plain_spec, x, rc)
+    if bad:
+        return fail(bad[0], j1[:300], bad[1])
+    jp = _snap(plain)
+    if not _jeq(jp, j1) or not same(plain_spec, plain, x) or not same(plain_spec, x, plain):
+        return fail('differs_from_list_built', jp[:300], j1[:300])
+    if not _jeq(_snap(x), j1):
+        return fail('changed_by_reading', j1[:300], _snap(x)[:300])
+    return None
+
+
+# containers that the pinned code shares on purpose (shallow ownership; recorded, not asserted): a mutable
+# collection writes its own value list into its dictionary, legend parameters write their own ordinal /
+# user-data dictionaries; a header keeps the metadata dictionary it is handed
+_LIVE_IN_TO_DICT = ('values', 'ordinal_dictionary', 'user_data')
+_LIVE_IN_FROM_DICT = ('metadata', 'user_data', 'ordinal_dictionary')
+
+
+def _scribble(v, skip=()):
+    """Edit a container in place everywhere it can be edited (dictionaries and lists, at every depth),
+    except below the keys in `skip`."""
+    def other(x):
+        if isinstance(x, bool):
+            return not x
+        if isinstance(x, (int, float)):
+            return x + 1
+        if isinstance(x, str):
+            return x + '~'
+        return x
+    if isinstance(v, dict):
+        for k in list(v.keys()):
+            if k in skip:
+                continue
+            x = v[k]
+            if isinstance(x, (dict, list, tuple)):
+                _scribble(x, skip)
+            else:
+                v[k] = other(x)
+        v['zz_scribble'] = 1
+    elif isinstance(v, list):
+        for i, x in enumerate(list(v)):
+            if isinstance(x, (dict, list, tuple)):
+                _scribble(x, skip)
+            else:
+                v[i] = other(x)
+        v.append(0)
+    elif isinstance(v, tuple):
+        for x in v:
+            if isinstance(x, (dict, list, tuple)):
+                _scribble(x, skip)
+
+
+def _derive(x, via, spec, rc):
+    if via == 'duplicate':
+        return x.duplicate()
+    if via == 'copy':
+        return copy.copy(x)
+    if via == 'deepcopy':
+        return copy.deepcopy(x)
+    if via == 'pickle':
+        return pickle.loads(pickle.dumps(x))
+    if via == 'dict':
+        return rc.from_dict(x.to_dict())          # no JSON in between: the reader gets the writer's own containers
+    if via == 'fresh':
+        return build(spec)                        # a second object of the class, same arguments, same process
+    if via == 'to_mutable':
+        return x.to_mutable()
+    if via == 'to_immutable':
+        return x.to_immutable()
+    raise ValueError('unknown derivation %r' % (via,))
+
+
+def _check_alias(op, inp):
+    """Two objects - an object and its copy / read-back / twin, or two objects built from the same arguments -
+    are separate values: editing one through the public API (setters, item assignment, in-place conversion,
+    editing a metadata / user-data dictionary it hands out) leaves the dictionary the other writes unchanged.
+    Likewise editing a dictionary AFTER it was written (via 'to_dict') or AFTER it was read (via
+    'from_dict_arg') changes neither the object written nor the object read."""
+    spec = inp['spec']
+    via = inp['via']
+    try:
+        x = build(spec)
+        rc = reader_class(spec, x)
+        j0 = _snap(x)
+    except Exception:
+        UNCONSTRUCTIBLE.append(spec['cls'])
+        return None
+
+    def fail(outcome, required, observed, **kw):
+        return {'required': required, 'observed': observed,
+                'sig': _sig(spec, 'alias', root='none', outcome=outcome, via=via,
+                            via_kind={'duplicate': 'copy', 'copy': 'copy', 'deepcopy': 'deep', 'pickle': 'deep'}.get(via, via),
+                            **kw)}
+    if via == 'to_dict':
+        d = x.to_dict()
+        _scribble(d, _LIVE_IN_TO_DICT)
+        try:
+            j1 = _snap(x)
+        except Exception as e:
+            j1 = 'raises %s: %s' % (type(e).__name__, str(e)[:160])
+        if j1 != j0:
+            return fail('object_changed_by_editing_its_dictionary', j0[:300], j1[:300])
+        return None
+    if via == 'from_dict_arg':
+        d = json.loads(json.dumps(x.to_dict()))
+        try:
+            y = rc.from_dict(d)
+            jy = _snap(y)
+        except Exception:
+            return None            # the plain ops report a dictionary that does not read back
+        _scribble(d, _LIVE_IN_FROM_DICT)
+        try:
+            j1 = _snap(y)
+        except Exception as e:
+            j1 = 'raises %s: %s' % (type(e).__name__, str(e)[:160])
+        if j1 != jy:
+            return fail('object_changed_by_editing_the_dictionary_it_was_read_from', jy[:300], j1[:300])
+        return None
+    try:
+        y = _derive(x, via, spec, rc)
+        jy = _snap(y)
+    except Exception:
+        return None                # the plain ops (duplicate / pickle / dict_plain) report that
+    dr = int(inp.get('dir', 0))
+    a, b, jb = (y, x, j0) if dr == 0 else (x, y, jy)
+    for i, o in enumerate(inp['ops']):
+        try:
+            real_apply(a, o)
+        except Exception:
+            pass
+        try:
+            jb2 = _snap(b)
+        except Exception as e:
+            jb2 = 'raises %s: %s' % (type(e).__name__, str(e)[:160])
+        if jb2 != jb:
+            attr = o.get('attr') or o.get('name') or o.get('path') or o['k']
+            if len(inp['ops']) > 1:
+                alone = dict(inp, ops=[o])
+                if _check_alias(op, alone):
+                    inp['shrunk_from'] = len(inp['ops'])
+                    inp['ops'] = [o]
+                else:
+                    inp['ops'] = inp['ops'][:i + 1]
+            tg = _hist_target(spec, attr) if o['k'] in ('set', 'poke') else '%s.%s' % (spec['cls'], attr)
+            who = ('copy', 'original') if dr == 0 else ('original', 'copy')
+            return fail('shared_state', 'editing the %s leaves the %s as it was: %s' % (who[0], who[1], jb[:220]),
+                'after %s (%s) the other object writes %s' % (o['k'], attr, jb2[:220]),
+                dir=dr, attr=attr, target=tg, tclass=tg.split('.')[0])
+    return None
+
+
+def _check_twin(op, inp):
+    """Mutable and immutable twin of one collection: each converts into the other, the conversions are equal
+    to the directly built twins, keep the validated flag, and the two write the same dictionary up to the
+    class name; each conversion result reads back from its dictionary like a built one."""
+    spec = inp['spec']
+    ms, is_ = dict(spec, immutable=False), dict(spec, immutable=True)
+    try:
+        m, im = build(ms), build(is_)
+    except Exception:
+        UNCONSTRUCTIBLE.append(spec['cls'])
+        return None
+
+    def fail(outcome, required, observed):
+        return {'required': required, 'observed': observed,
+                'sig': _sig(spec, 'twin', root=root_of('dict_json', {'spec': ms}), outcome=outcome)}
+    steps = (('to_immutable', m, is_, im), ('to_mutable', im, ms, m), ('to_mutable_of_mutable', m, ms, m),
+             ('to_immutable_of_immutable', im, is_, im))
+    for name, src, tspec, want in steps:
+        try:
+            got = getattr(src, name.split('_of_')[0])()
+        except Exception as e:
+            return fail(name + '_raises', _describe(want), 'raises %s: %s' % (type(e).__name__, str(e)[:160]))
+        if not same(tspec, want, got) or not same(tspec, got, want):
+            return fail(name + '_unequal', '%s %s' % (type(want).__name__, _describe(want)),
+                        '%s %s' % (type(got).__name__, _describe(got)))
+        if bool(got.validated_a_period) != bool(want.validated_a_period):
+            return fail(name + '_validated_flag', want.validated_a_period, got.validated_a_period)
+        if root_of('dict_json', {'spec': ms}) == 'none':
+            bad, _d = _obs(tspec, got, type(got))
+            if bad:
+                return fail(name + '_' + bad[0], _describe(want), bad[1])
+    dm, di = json.loads(json.dumps(m.to_dict())), json.loads(json.dumps(im.to_dict()))
+    tm, ti = dm.pop('type', None), di.pop('type', None)
+    if dm != di:
+        return fail('dictionaries_differ', jdump(dm)[:300], jdump(di)[:300])
+    if ti != tm and ti != '%sImmutable' % tm:
+        return fail('type_names', tm, ti)
+    return None
+
+
+def _ap_text(a, style):
+    sm, sd, sh, em, ed, eh, ts, leap = a
+    if style == 'pad2':
+        t = '%02d/%02d to %02d/%02d between %02d and %02d @%d' % (sm, sd, em, ed, sh, eh, ts)
+    elif style == 'upper':
+        t = '%d/%d TO %d/%d BETWEEN %d AND %d @%d' % (sm, sd, em, ed, sh, eh, ts)
+    elif style == 'blanks':
+        t = '  %d / %d  to  %d / %d   between  %d  and  %d  @ %d ' % (sm, sd, em, ed, sh, eh, ts)
+    elif style == 'tight':
+        t = '%d/%dto%d/%dbetween%dand%d@%d' % (sm, sd, em, ed, sh, eh, ts)
+    elif style == 'mixed':
+        t = '%02d/%d to %d/%02d between %d and %02d @%d' % (sm, sd, em, ed, sh, eh, ts)
+    else:
+        t = '%d/%d to %d/%d between %d and %d @%d' % (sm, sd, em, ed, sh, eh, ts)
+    return t + ('*' if leap else '') + (' ' if style == 'blanks' else '')
+
+
+_MON = ('Jan', 'Feb', 'Mar', 'Apr', 'May', 'Jun', 'Jul', 'Aug', 'Sep', 'Oct', 'Nov', 'Dec')
+
+
+def _check_text_shape(op, inp):
+    """Hand-written text of the documented format (one- and two-digit fields mixed, blanks, capitals) reads
+    to the object that the numbers describe."""
+    spec = inp['spec']
+    style = inp['style']
+    c = spec['cls']
+    a = spec['args']
+    try:
+        x = build(spec)
+    except Exception:
+        UNCONSTRUCTIBLE.append(c)
+        return None
+    if c == 'AnalysisPeriod':
+        text = _ap_text(a, style)
+        rd = lambda: type(x).from_string(text)
+    elif c == 'DateTime':
+        text = ('%d %s %d:%02d' if style == 'short' else '%02d %s %02d:%02d') % (a[1], _MON[a[0] - 1], a[2], a[3])
+        if style == 'upper':
+            text = text.upper()
+        rd = lambda: type(x).from_date_time_string(text, bool(a[4]))
+    elif c == 'Date':
+        text = ('%d %s' if style == 'short' else '%02d %s') % (a[1], _MON[a[0] - 1])
+        if style == 'upper':
+            text = text.lower()
+        rd = lambda: type(x).from_date_string(text, bool(a[2]))
+    elif c == 'Time':
+        text = ('%d:%02d' if style == 'short' else '%02d:%02d') % (a[0], a[1])
+        rd = lambda: type(x).from_time_string(text)
+    else:
+        raise ValueError('no text shapes for ' + c)
+    sig = _sig(spec, 'text_shape', root='none', style=style)
+    try:
+        y = rd()
+    except Exception as e:
+        return {'required': _describe(x), 'observed': 'reading %r raises %s: %s' % (text, type(e).__name__, str(e)[:160]),
+                'sig': dict(sig, outcome='raises')}
+    if not same(spec, x, y) or _snap(x) != _snap(y):
+        return {'required': _describe(x), 'observed': 'reading %r gives %s' % (text, _describe(y)),
+                'sig': dict(sig, outcome='unequal')}
+    return None
+
+
 # --- process-order independence ----------------------------------------------------------------
 
 def _child_main():
@@ -1255,6 +1722,14 @@ def check_case(op, inp):
         return _check_seq(op, inp)
     if op == 'order':
         return _check_order(op, inp)
+    if op == 'shape':
+        return _check_shape(op, inp)
+    if op == 'alias':
+        return _check_alias(op, inp)
+    if op == 'twin':
+        return _check_twin(op, inp)
+    if op == 'text_shape':
+        return _check_text_shape(op, inp)
     return _check_plain(op, inp)
 
 
@@ -1334,7 +1809,8 @@ def gen_datatype(rng, generic=None):
         mn = rng.choice([float('-inf'), 0, -1.5, 0.0])
         mx = rng.choice([float('inf'), 100, 1.5])
         abbr = rng.choice([None, '', 'F', name])
-        ud = rng.choice([None, None, [['-1', 'Cold'], ['0', 'Neutral'], ['1', 'Hot']], [['0', 'False'], ['1', 'True']]])
+        ud = rng.choice([None, None, [['-1', 'Cold'], ['0', 'Neutral'], ['1', 'Hot']], [['0', 'False'], ['1', 'True']],
+                         [['1', 'Hot'], ['-1', 'Cold'], ['0', 'Neutral']]])      # (insertion order not sorted)
         pit = rng.random() < 0.6
         cum = (not pit) and rng.random() < 0.5
         int_keys = ud is not None and rng.random() < 0.7
@@ -1548,6 +2024,15 @@ def gen_legendpar_cat(rng):
         s['continuous_colors'] = rng.random() < 0.5
     if rng.random() < 0.4:
         s['vertical'] = rng.random() < 0.5
+    # round 4 (override gap): every field of the plain parameters also on the categorized sibling
+    if rng.random() < 0.3:
+        s['continuous_legend'] = rng.random() < 0.5
+    if rng.random() < 0.3:
+        s['decimal_count'] = rng.choice([0, 1, 3])
+    if rng.random() < 0.3:
+        s['include_larger_smaller'] = rng.random() < 0.5
+    if rng.random() < 0.3:
+        s['font'] = rng.choice(['Courier', 'Times'])
     return s
 
 
@@ -1954,6 +2439,8 @@ def _oracle_cases(ctx):
             yield 'dict_json', {'spec': {'cls': 'EPW', 'file': f}, 'seed': 0}
     for x in _round3_cases(ctx, rng, k):
         yield x
+    for x in _round4_cases(ctx, rng, k):
+        yield x
 
 
 def _hist_specs(rng, k):
@@ -2112,6 +2599,255 @@ def _round3_cases(ctx, rng, k):
         yield 'seq', {'specs': specs, 'order': order}
 
 
+# --- round 4 generators ---------------------------------------------------------------------------
+
+# numeric edges (kind h): texts with an exponent and no fraction part, magnitudes 1e-12 .. 1e+16 and beyond,
+# values on a half, negative zero, integers beyond 2**53; infinities only where the class accepts them
+EDGE_FLOATS = (1e-05, 5e-05, -1e-07, 2.5e-10, 1e-12, 1e16, 3e+16, 1.25e16, -4e+18, 1e22, 1e100, 0.5, 1.5, 2.5, -0.5,
+               -0.0, 0.1 + 0.2, 1e15 + 0.5, 123456789012345678.0, float(2 ** 53), 5e-324, 1.7976931348623157e308,
+               99999.99999999999, 1e-4, 0.0001234, 1e21, 1e-7)
+EXOTIC_STR = (u'Köln', u'São Paulo', u'東京', u'a b', "O'Hare", '"q"', 'x;y', 'tab\tin', u'°C room',
+              u'café – nord', 'a=b', '#1', '100%', u'\U0001F321 hot', '  padded  ', '1e5', 'None', 'true')
+
+
+def _alias_ops(rng, spec):
+    """Editing operations for one object: accepted-looking assignments of the class and of its parts,
+    item assignment, in-place conversion, and edits of the dictionaries it hands out."""
+    c = spec['cls']
+    ops = [o for o in gen_history(rng, spec, n_ops=6) if o['k'] != 'read']
+    for attr, key in sorted(_SUB.get(c, {}).items()):
+        sub = spec.get(key)
+        if isinstance(sub, dict) and 'cls' in sub:
+            for a_, good, _bad in _hist_pool(rng, sub):
+                if good and rng.random() < 0.6:
+                    ops.append({'k': 'set', 'attr': attr + '.' + a_, 'v': rng.choice(good)})
+    if c == 'Collection':
+        for a_, good, _bad in _hist_pool(rng, spec['header']):
+            ops.append({'k': 'set', 'attr': 'header.' + a_, 'v': rng.choice(good)})
+        ops.append({'k': 'poke', 'path': 'header.metadata', 'key': 'zz', 'v': 'edited'})
+        ops.append({'k': 'setitem', 'i': 0, 'v': 987.5})
+    if c == 'Header':
+        ops.append({'k': 'poke', 'path': 'metadata', 'key': 'zz', 'v': 'edited'})
+    # (the ordinal / user-data dictionaries of legend parameters are shared by copies on purpose: shallow
+    #  ownership, like the dictionary form; they are replaced, not edited, here)
+    rng.shuffle(ops)
+    return ops[:8]
+
+
+_ALIAS_VIAS = {
+    'Collection': ('duplicate', 'copy', 'deepcopy', 'pickle', 'dict', 'fresh', 'to_mutable', 'to_immutable'),
+    'default': ('duplicate', 'copy', 'deepcopy', 'pickle', 'dict', 'fresh'),
+}
+
+
+def _shape_specs(rng, k):
+    """Specs of every class with a sequence argument."""
+    out = []
+    for kind in sorted(COLL_CLASSES):
+        for imm in (False, True):
+            out.append(gen_collection(rng, kind, imm, generic=False))
+    out += [gen_colorrange(rng) for _ in range(2)]
+    lp = gen_legendpar(rng)
+    lp['colors'] = [gen_color(rng) for _ in range(rng.choice([2, 3, 6]))]
+    out.append(lp)
+    lpc = gen_legendpar_cat(rng)
+    lpc['names'] = ['cat %d' % i for i in range(len(lpc['domain']) + 1)]
+    out.append(lpc)
+    out.append(gen_legend(rng))
+    loc = gen_location(rng)
+    out.append({'cls': 'DDY', 'location': loc, 'days': [gen_designday(rng, loc) for _ in range(rng.choice([1, 2, 3]))]})
+    return out
+
+
+def _edge_collection(rng, kind, imm):
+    c = gen_collection(rng, kind, imm, meta_kind=rng.choice(['none', 'empty', 'strings']), generic=False)
+    c['header']['dt'] = {'cls': 'DataType', 'type': rng.choice(['Temperature', 'Energy', 'Illuminance']), 'name': None}
+    c['header']['unit'] = _units_of(c['header']['dt'])[0]
+    n = len(c['values'])
+    pool = list(EDGE_FLOATS) + ['inf', '-inf']
+    vals = [rng.choice(pool) for _ in range(n)]
+    if n <= 48:
+        vals = (rng.sample(pool, min(n, len(pool))) + vals)[:n]
+    c['values'] = vals
+    c['edge'] = True
+    if 'validated' in c:
+        c['validated'] = True
+    return c
+
+
+def _round4_cases(ctx, rng, k):
+    basic = ('dict_json', 'duplicate', 'pickle')
+    none_root = lambda s_: root_of('dict_json', {'spec': s_}) == 'none'
+    # (f)(i) every sequence argument as list / tuple / generator / iterator / map / filter / deque
+    for _ in range(k):
+        for spec in _shape_specs(rng, k):
+            if not none_root(spec):
+                continue
+            for shp in SHAPES:
+                ctx.count('shape:' + shp)
+                ctx.count('shape_cls:' + spec['cls'])
+                yield 'shape', {'spec': dict(spec, shape=shp)}
+    if k > 1:
+        yield 'shape', {'spec': {'cls': 'Wea', 'location': gen_location(rng), 'annual': True, 'timestep': 1,
+                                 'leap': rng.random() < 0.5, 'shape': rng.choice(['tuple', 'gen'])}}
+    # (i) numbers given as text
+    for _ in range(4 * k):
+        for mode in ('plain', 'pad', 'exp'):
+            for spec in (gen_location(rng), {'cls': 'Color', 'args': gen_color(rng)}, gen_ap(rng),
+                         gen_legendpar_cat(rng)):
+                if spec['cls'] == 'LegendParametersCategorized':
+                    spec['names'] = ['cat %d' % i for i in range(len(spec['domain']) + 1)]
+                ctx.count('strnum:' + spec['cls'] + ':' + mode)
+                yield 'shape', {'spec': dict(spec, strnum=mode)}
+    # (f) the series handed to the file writers in every shape (and a second call with the same series)
+    for _ in range(k):
+        for op in ('csv', 'json_file', 'pkl'):
+            for shp in SHAPES:
+                c = gen_collection(rng, meta_kind=rng.choice(['strings', 'empty', 'none']), generic=False)
+                c['header']['dt']['name'] = None
+                if 'validated' in c:
+                    c['validated'] = True
+                inp = {'spec': c, 'shape': shp, 'seed': 0}
+                if rng.random() < 0.6:
+                    c2 = copy.deepcopy(c)
+                    c2['values'] = gen_values(rng, len(c['values']))
+                    inp['more'] = [c2]
+                ctx.count('file_shape:' + op + ':' + shp)
+                yield op, inp
+    # (j) rare branches of the file writers: new folder, file name with its extension (capitals too), blanks
+    for op, ext in (('csv', 'csv'), ('json_file', 'json'), ('pkl', 'pkl')):
+        for fname in ('data.' + ext, 'DATA.' + ext.upper(), 'my data', 'a.b'):
+            for newdir in (False, True):
+                c = gen_collection(rng, meta_kind='strings', generic=False)
+                c['header']['dt']['name'] = None
+                if 'validated' in c:
+                    c['validated'] = True
+                ctx.count('branch:file_%s_%s' % ('newdir' if newdir else 'dir', 'ext' if fname.lower().endswith(ext) else 'noext'))
+                yield op, {'spec': c, 'fname': fname, 'newdir': newdir, 'seed': 0}
+    # (e) every copy form on every class that is not a collection / basic value (those have them already)
+    for _ in range(3 * k):
+        loc = gen_location(rng)
+        others = [gen_colorrange(rng), gen_legendpar(rng), gen_legend(rng), gen_designday(rng),
+                  {'cls': 'DDY', 'location': loc, 'days': [gen_designday(rng, loc) for _ in range(rng.choice([1, 2]))]}]
+        others += list(gen_designday_parts(rng))
+        lpc = gen_legendpar_cat(rng)
+        lpc['names'] = ['cat %d' % i for i in range(len(lpc['domain']) + 1)]
+        others.append(lpc)
+        for spec in others:
+            ctx.count('stratum:pickle_all_classes')
+            yield 'pickle', {'spec': spec, 'seed': 0}
+    # (f) aliasing: copies, read-backs, twins and second objects are separate values
+    specs = []
+    for _ in range(2 * k):
+        specs += [gen_location(rng), gen_header(rng, generic=False), {'cls': 'Color', 'args': gen_color(rng)},
+                  gen_colorrange(rng), gen_legendpar(rng), gen_legend(rng), gen_designday(rng)]
+        specs += list(gen_designday_parts(rng))
+        lpc = gen_legendpar_cat(rng)
+        lpc['names'] = ['cat %d' % i for i in range(len(lpc['domain']) + 1)]
+        specs.append(lpc)
+        loc = gen_location(rng)
+        specs.append({'cls': 'DDY', 'location': loc, 'days': [gen_designday(rng, loc) for _ in range(2)]})
+    for kind in sorted(COLL_CLASSES):
+        for imm in (False, True):
+            specs.append(gen_collection(rng, kind, imm, generic=False))
+    specs += [{'cls': 'LegendParameters'}, {'cls': 'ColorRange', 'colors': None, 'domain': None, 'continuous': True},
+              {'cls': 'Header', 'dt': {'cls': 'DataType', 'type': 'Temperature', 'name': None}, 'unit': 'C',
+               'ap': {'cls': 'AnalysisPeriod', 'args': [1, 1, 0, 12, 31, 23, 1, False]}, 'meta': None},
+              {'cls': 'Legend', 'values': [0, 10], 'lp': None},
+              {'cls': 'Location', 'args': []}]                       # default-built: shared default arguments
+    for spec in specs:
+        if not none_root(spec):
+            continue
+        c = spec['cls']
+        vias = _ALIAS_VIAS.get(c, _ALIAS_VIAS['default'])
+        for via in vias:
+            if via in ('copy',) and c in ('Location0',):
+                continue
+            ops = _alias_ops(rng, spec)
+            if not ops:
+                continue
+            ctx.count('alias:' + via)
+            ctx.count('alias_cls:' + c)
+            yield 'alias', {'spec': spec, 'via': via, 'dir': rng.choice([0, 0, 1]), 'ops': ops}
+        for via in ('to_dict', 'from_dict_arg'):
+            ctx.count('alias:' + via)
+            yield 'alias', {'spec': spec, 'via': via}
+    # (e) sibling classes: mutable / immutable twins of every collection class
+    for kind in sorted(COLL_CLASSES):
+        for _ in range(2 * k):
+            c = gen_collection(rng, kind, False)
+            ctx.count('twin:' + kind)
+            yield 'twin', {'spec': c}
+    # (i) hand-written text forms
+    for _ in range(8 * k):
+        ap = gen_ap(rng)
+        for style in ('plain', 'pad2', 'upper', 'blanks', 'tight', 'mixed'):
+            ctx.count('text_shape:AnalysisPeriod:' + style)
+            yield 'text_shape', {'spec': ap, 'style': style}
+        d = gen_dt(rng)
+        for c, a in (('DateTime', d), ('Date', [d[0], d[1], d[4]]), ('Time', [d[2], d[3]])):
+            for style in ('short', 'long', 'upper'):
+                ctx.count('text_shape:' + c)
+                yield 'text_shape', {'spec': {'cls': c, 'args': a}, 'style': style}
+    # (h) numeric edges in every value-carrying form
+    for kind in sorted(COLL_CLASSES):
+        for imm in (False, True):
+            for _ in range(k):
+                c = _edge_collection(rng, kind, imm)
+                ctx.count('stratum:edge_values')
+                for op in basic + ('csv', 'json_file', 'pkl'):
+                    yield op, {'spec': c, 'seed': rng.randrange(10 ** 6)}
+    for v in rng.sample(EDGE_FLOATS, 8 * min(k, 3)):
+        ctx.count('stratum:edge_numbers')
+        yield 'dict_json', {'spec': {'cls': 'Location', 'args': ['x', None, None, 0.5, -0.5, None, v, None, None]}, 'seed': 0}
+        yield 'text', {'spec': {'cls': 'Location', 'args': ['x', None, None, 1e-05, -1e-07, 1e-12, v, None, None]}, 'seed': 0}
+        yield 'dict_json', {'spec': {'cls': 'DryBulbCondition', 'args': [v, abs(v)]}, 'seed': 0}
+        yield 'dict_json', {'spec': {'cls': 'WindCondition', 'args': [abs(v), 22.5]}, 'seed': 0}
+        yield 'dict_json', {'spec': {'cls': 'Legend', 'values': [v, -v, 0], 'lp': None}, 'seed': 0}
+        yield 'dict_json', {'spec': {'cls': 'ColorRange', 'colors': None, 'domain': sorted([v, v + abs(v) + 1]), 'continuous': True}, 'seed': 0}
+        yield 'dict_json', {'spec': {'cls': 'LegendParametersCategorized', 'domain': [v], 'colors': [[0, 0, 0, 255], [9, 9, 9, 255]],
+                                     'names': ['lo', 'hi']}, 'seed': 0}
+    for lon in (7.5, -7.5, 22.5, -22.5, 37.5, 52.5, 172.5, -172.5, 7.499999999999999, 7.500000000000001):
+        ctx.count('stratum:time_zone_half')          # round(lon / 15) on a half: time zone derived, then stored
+        for op in ('dict_json', 'duplicate', 'text'):
+            yield op, {'spec': {'cls': 'Location', 'args': ['x', None, None, 0, lon, None, 0, None, None]}, 'seed': 0}
+    # (i) exotic but legal characters in every text field
+    for sx in rng.sample(EXOTIC_STR, 6 if k == 1 else len(EXOTIC_STR)):
+        ctx.count('stratum:exotic_text')
+        loc = {'cls': 'Location', 'args': [sx, sx, sx, 1.5, 2.5, 0, 3, sx, sx]}
+        for op in basic:
+            yield op, {'spec': loc, 'seed': 0}
+        h = _hdr(meta={'k ' + sx: sx} if _meta_kind({'k ' + sx: sx}) == 'strings' else {'k': 'v'})
+        yield 'dict_json', {'spec': h, 'seed': 0}
+        yield 'text', {'spec': h, 'per_row': rng.random() < 0.5, 'seed': 0}
+        mc = {'cls': 'Collection', 'kind': 'Monthly', 'immutable': False, 'header': h, 'values': [1.5, 2.5],
+              'datetimes': [2, 3], 'validated': True}
+        for op in ('csv', 'json_file', 'pkl'):
+            yield op, {'spec': mc, 'seed': 0}
+        yield 'dict_json', {'spec': {'cls': 'DataType', 'generic': [sx, sx, 0, 10, sx, None, True, False], 'int_keys': False}, 'seed': 0}
+        yield 'dict_json', {'spec': {'cls': 'LegendParameters', 'title': sx, 'font': sx, 'user_data': {sx: sx}}, 'seed': 0}
+        yield 'dict_json', dict(spec=dict(gen_designday(rng), name=sx), seed=0)
+    # (i) unsorted and duplicated datetimes (nothing sorts or validates them unless asked)
+    for kind in ('HourlyDiscontinuous', 'Daily', 'Monthly', 'MonthlyPerHour'):
+        for imm in (False, True):
+            for how in ('reversed', 'shuffled', 'duplicated'):
+                c = gen_collection(rng, kind, imm, meta_kind='strings', generic=False)
+                c['header']['dt']['name'] = None
+                dts = list(c['datetimes'])
+                if how == 'reversed':
+                    dts.reverse()
+                elif how == 'shuffled':
+                    rng.shuffle(dts)
+                else:
+                    dts = (dts + dts)[:len(dts) + 1]
+                    c['values'] = (list(c['values']) * 2)[:len(dts)]
+                c['datetimes'] = dts
+                c['validated'] = how != 'duplicated' and rng.random() < 0.5
+                ctx.count('stratum:datetimes_' + how)
+                for op in basic + ('json_file', 'pkl') + (('csv',) if c['validated'] else ()):
+                    yield op, {'spec': c, 'seed': 0}
+
+
 def oracle(ctx):
     with contextlib.redirect_stdout(io.StringIO()):     # ladybug prints notices ("Updated end_day ...")
         _oracle(ctx)
@@ -2125,7 +2861,7 @@ def _oracle(ctx):
                 yield op, inp
                 continue
             s = inp['spec']
-            r = root_of(op if op != 'history' else 'dict_json', inp)
+            r = root_of(op if op not in ('history',) + _R4_OPS else 'dict_json', inp)
             if r.startswith('multiple'):
                 ctx.count('skipped:compound-known-limitations')
                 continue
@@ -2144,7 +2880,7 @@ def _oracle(ctx):
         for op, inp in cases:
             heavy = 'spec' in inp and (inp['spec']['cls'] in ('EPW', 'PsychrometricChart') or
                                        (inp['spec']['cls'] == 'Wea'))
-            if not heavy and ('spec' not in inp or root_of(op if op != 'history' else 'dict_json', inp) == 'none'):
+            if not heavy and ('spec' not in inp or root_of(op if op not in ('history',) + _R4_OPS else 'dict_json', inp) == 'none'):
                 pool.append((op, copy.deepcopy(inp)))
             yield op, inp
     run_oracle_cases(ctx, tee(counted(_oracle_cases(ctx))), check_case)
@@ -2674,7 +3410,53 @@ def _correspondence(ctx):
                 muts.append(v)
             _model_rt(ctx, 'rtmut_' + tag, tag, muts, reader)
 
+    _file_correspondence(ctx, L, rng, n)
     _hist_correspondence(ctx, L, rng, n)
+
+
+def _file_correspondence(ctx, L, rng, n):
+    """Round 4: series of collections in JSON / pickle files (Model/Serial/Files.lean, theorems
+    C07_json_file*, C07_read_as_mutable).  The real writers get the series in every container shape
+    (list, tuple, generator, iterator, map, filter, deque); the model takes the list of the elements:
+    the file must hold one dictionary per element, in order, and each dictionary - of either twin -
+    read by the mutable class of its `type` (`_dict_to_collection`) must be what the model's mutable
+    reader gives."""
+    du = L['du']
+    tmp = tempfile.mkdtemp(prefix='c07f_')
+    try:
+        for kind in sorted(COLL_CLASSES):
+            dicts = []
+            for shp in SHAPES:
+                for form in ('json', 'pkl'):
+                    specs = [gen_collection(rng, kind, rng.random() < 0.5) for _ in range(rng.choice([1, 2, 3]))]
+                    try:
+                        xs = [build(s_) for s_ in specs]
+                    except Exception:
+                        ctx.count('spec_not_constructible')
+                        continue
+                    want = [json.loads(json.dumps(x.to_dict())) for x in xs]
+                    inp = {'kind': kind, 'shape': shp, 'form': form, 'specs': specs}
+                    ctx.count('file_corr:%s:%s' % (form, shp))
+                    try:
+                        path = getattr(du, 'collections_to_' + form)(_shp(xs, shp), tmp, 'f_%s_%s' % (kind, shp))
+                        if form == 'json':
+                            with open(path) as f:
+                                got = json.load(f)
+                        else:
+                            with open(path, 'rb') as f:
+                                got = json.loads(json.dumps(pickle.load(f)))
+                    except Exception as e:
+                        got = 'raises %s' % type(e).__name__
+                    ctx.case(('file_series', form, shp, jdump(want)), True)
+                    if got != want:
+                        # model: encFile xs = the list of the dictionaries of the elements
+                        ctx.disagree('file_series', inp, 'ok %d dictionaries: %s' % (len(want), jdump(want)[:300]),
+                                     ('ok %d dictionaries: %s' % (len(got), jdump(got)[:300])) if isinstance(got, list) else got)
+                    elif form == 'json':
+                        dicts += got
+            _model_rt(ctx, 'rt_file_' + kind, kind, dicts, du._dict_to_collection)
+    finally:
+        shutil.rmtree(tmp, ignore_errors=True)
 
 
 def _hist_correspondence(ctx, L, rng, n):
